@@ -43,6 +43,37 @@ def is_trip_call(n):
             and is_self_attr(n.func.value, "_hasNewTransition"))
 
 
+# evaluators that must be flagged after the write under consideration (set by the R-TRIP loop): a trip() without arguments flags
+# every evaluator; a trip that names the flags to set covers the write only if it names every evaluator whose generator reads
+# what was written
+_REQUIRED = [None]
+
+
+def trip_covers(call):
+    if not call.args and not call.keywords:
+        return True
+    req = _REQUIRED[0]
+    if req is None:
+        return True
+    names = set()
+    for a in call.args:
+        if isinstance(a, ast.Starred):
+            a = a.value
+            if isinstance(a, (ast.Tuple, ast.List)) and all(isinstance(x, ast.Constant) and isinstance(x.value, str) for x in a.elts):
+                names |= {x.value for x in a.elts}
+                continue
+            raise AnalysisError("cannot resolve the flags named in %s" % norm(call))
+        if isinstance(a, ast.Constant) and isinstance(a.value, str):
+            names.add(a.value)
+        elif isinstance(a, (ast.Tuple, ast.List)) and all(isinstance(x, ast.Constant) and isinstance(x.value, str) for x in a.elts):
+            names |= {x.value for x in a.elts}
+        else:
+            raise AnalysisError("cannot resolve the flags named in %s" % norm(call))
+    if call.keywords:
+        raise AnalysisError("cannot resolve the flags named in %s" % norm(call))
+    return req <= names
+
+
 def _base_self_attr(node, repo, cls):
     """self._X / self.prop (prop getter returns self._X) at the base of a chain of
     subscripts -> '_X' ; else None"""
@@ -245,7 +276,8 @@ def trip_nodes(repo, cls, func, always_trips):
         for e in df.node_exprs(n):
             for c in walk_no_nested(e):
                 if is_trip_call(c):
-                    out.append(n)
+                    if trip_covers(c):
+                        out.append(n)
                 elif isinstance(c, ast.Call) and is_self_attr(c.func):
                     m = repo.resolve_method(cls, c.func.attr)
                     if m is not None and m.construct in always_trips:
@@ -444,7 +476,11 @@ def check(repo, res, tier):
     # ---------------------------------------------------------------- S2 R-TRIP
     D, reads, writers, gens, compile_fn, all_funcs = definition_state(repo, cls, regs, res)
     res.floor("definition-state attributes", len(D & SPEC.EXPECTED_D), len(SPEC.EXPECTED_D))
-    always = compute_always_trips(repo, cls)
+    _REQUIRED[0] = {r.name for r in regs}        # a method "always trips" for its callers only if it flags every evaluator
+    try:
+        always = compute_always_trips(repo, cls)
+    finally:
+        _REQUIRED[0] = None
     n_sites = 0
     methods_with_sites = set()
     for a in sorted(D):
@@ -454,7 +490,13 @@ def check(repo, res, tier):
                 continue
             n_sites += 1
             methods_with_sites.add(f.construct)
-            ok, why = _discharged(repo, cls, f, n, always, depth=3, seen=set())
+            _REQUIRED[0] = {r.name for r in regs if a in M.self_reads(repo, cls, r.gen)}
+            try:
+                ok, why = _discharged(repo, cls, f, n, always, depth=3, seen=set())
+                if not ok and "trip" in norm(f.node) and _REQUIRED[0]:
+                    why += " (a trip that names its flags must name every evaluator whose generator reads %s: %s)" % (a, ", ".join(sorted(_REQUIRED[0])))
+            finally:
+                _REQUIRED[0] = None
             tag = "write(%s)@%s" % (a, norm(n)[:60])
             if ok:
                 res.holds("R-TRIP", f, tag, why, node=n)
